@@ -424,6 +424,24 @@ def run(chk):
                 return f'comp(estimate_delta=True) has monoisotopic mass {m2!r}, mass() = {m!r}'
         return None
 
+    # call sequences: before the identity is searched, every modification value of the pools goes through the other public
+    # functions that accept it, and every returned dict is spoiled (no state may leak into later mass / comp_mass calls)
+    from peptacular import mass_calc as _mcs
+    from peptacular.chem import chem_util as _cu
+    for v in cm.FORMULAS + cm.GLYCANS + cm.NAMED + cm.TAGGED:
+        for f in (lambda: _mcs.mod_mass(v, True), lambda: _mcs.mod_mass(v, False), lambda: chem_calc.mod_comp(v),
+                  lambda: _cu.parse_chem_formula(v.split(':', 1)[1]) if v.lower().startswith('formula:') else None,
+                  lambda: chem_calc.apply_isotope_mods_to_composition(v.split(':', 1)[1], ['13C', 'D']) if v.lower().startswith('formula:') else None,
+                  lambda: pt.comp_mass('PEPTIDE[%s]' % v), lambda: pt.comp('PEPTIDE[%s]' % v, estimate_delta=True)):
+            try:
+                r = f()
+                for d in (r if isinstance(r, tuple) else (r,)):
+                    if isinstance(d, dict):
+                        for k in list(d):
+                            d[k] = 999
+                        d['Xx'] = 1
+            except Exception:  # noqa
+                pass
     budget = (1500 if tier == 'quick' else 40000) * (3 if chk.broken() else 1)
     ocases = [(a, dict(kw)) for a, kw in corpus]
     for a, kw in db_cases:
